@@ -902,6 +902,8 @@ func c14SymmetrySearch(seed uint64, d time.Duration, max int) []c14Case {
 		go func(w int) {
 			defer wg.Done()
 			r := vf.NewRand(seed ^ uint64(w+1)*0x9e3779b97f4a7c15)
+			var b, pb []byte
+			var eb error
 			for i := 0; ; i++ {
 				if i%64 == 0 {
 					mu.Lock()
@@ -911,9 +913,13 @@ func c14SymmetrySearch(seed uint64, d time.Duration, max int) []c14Case {
 						return
 					}
 				}
-				a, b := r.Bytes(56), r.Bytes(56)
+				// b (and its public value) is kept for 256 rounds: three ladder runs per sample instead of four
+				if i%256 == 0 {
+					b = r.Bytes(56)
+					pb, eb = x448.X448(b, basepoint448)
+				}
+				a := r.Bytes(56)
 				pa, ea := x448.X448(a, basepoint448)
-				pb, eb := x448.X448(b, basepoint448)
 				atomic.AddInt64(&tried, 1)
 				if ea == nil && eb == nil {
 					s1, e1 := x448.X448(a, pb)
@@ -1084,7 +1090,7 @@ func runC14(c *vf.Ctx) {
 		}
 	}
 	if SearchMode() {
-		found := c14SymmetrySearch(c.Seed^0xc14, 40*time.Second, 3)
+		found := c14SymmetrySearch(c.Seed^0xc14, 150*time.Second, 2)
 		c.Note("search mode: DH-symmetry brute force tried %d key pairs on %d cores, %d call(s) off the RFC function", c14SymTried, runtime.NumCPU(), len(found))
 		fixed = append(fixed, found...)
 	}
